@@ -492,6 +492,9 @@ pub struct GenHistory {
     pub stdout: Vec<u8>,
     pub stderr: Vec<u8>,
     pub stdio: (String, String, String),
+    /// the generator wrote to a stderr that the compiler had not piped (inherited or /dev/null): the bytes exist but
+    /// the compiler cannot have seen them
+    pub stderr_unseen: bool,
 }
 
 /// Spawn attempts in the order they happened, each with everything the compiler observed about that process.
@@ -536,6 +539,11 @@ pub fn generator_histories(trace: &[Event]) -> Vec<GenHistory> {
                         h.stderr.extend(refcodec::util::unhex(stderr_hex).unwrap_or_default());
                         h.collect_errno = -*result;
                     }
+                }
+            }
+            Ev::Gen { gen, what } if what == "stderr-not-piped" => {
+                if let Some(i) = by_gen.get(gen) {
+                    out[*i].stderr_unseen = true;
                 }
             }
             Ev::PipeRead { gen, fd, result, hex, .. } => {
